@@ -594,7 +594,7 @@ func (x *Exec) callSpec(e *Env, sf *SpecFn, n *ast.CallExpr) Value {
 	if err != nil {
 		unsupported("%s: spec %s: %v", sf.Where, sf.Name, err)
 	}
-	if sf.Rec || sf.Decl || x.opaque[sf.Name] {
+	if sf.Rec || sf.Fun || sf.Decl || x.opaque[sf.Name] {
 		return x.applySpec(e, sf, spkg, args, ptypes, rt)
 	}
 	names := map[string]Value{}
@@ -747,7 +747,11 @@ func (x *Exec) defineRec(e *Env, sf *SpecFn, spkg *packages.Package, name string
 		unsupported("rec spec %s: body is %T", sf.Name, body)
 	}
 	var sb strings.Builder
-	fmt.Fprintf(&sb, "(define-fun-rec %s (", sanitize(name))
+	kw := "define-fun-rec"
+	if sf.Fun {
+		kw = "define-fun"
+	}
+	fmt.Fprintf(&sb, "(%s %s (", kw, sanitize(name))
 	for _, p := range params {
 		fmt.Fprintf(&sb, "(%s %s)", sanitize(p.Name), p.S)
 	}
@@ -776,6 +780,15 @@ func (x *Exec) callFunc(e *Env, callee *types.Func, recvExpr ast.Expr, n *ast.Ca
 			return v
 		}
 		rv := e.expr(recvExpr)
+		if ev, isErr := rv.(ErrV); isErr {
+			switch callee.Name() {
+			case "Unwrap":
+				// the wrapped error: same sentinel kind, no longer the outer dynamic type
+				return ErrV{Nil: ev.Nil, Kind: ev.Kind, Type: IntC(0), Off: IntC(0)}
+			case "Error":
+				return x.havoc(e, types.Typ[types.String], "errtext")
+			}
+		}
 		args = append(args, rv)
 		argExprs = append(argExprs, recvExpr)
 	} else if v, ok := x.nativeFunc(e, callee, n); ok {
@@ -818,10 +831,15 @@ func (x *Exec) callFunc(e *Env, callee *types.Func, recvExpr ast.Expr, n *ast.Ca
 		pp, key := funcKey(callee)
 		unsupported("%s: call of %s.%s which has no contract", e.where, pp, key)
 	}
+	x.bindLets(e, n, args, sig.Recv() != nil, nil, false)
+	var res Value
 	if c.Inline {
-		return x.inlineCall(e, callee, c, args, n)
+		res = x.inlineCall(e, callee, c, args, n)
+	} else {
+		res = x.modularCall(e, callee, c, args, n)
 	}
-	return x.modularCall(e, callee, c, args, n)
+	x.bindLets(e, n, args, sig.Recv() != nil, res, true)
+	return res
 }
 
 func (x *Exec) variadicSlice(e *Env, vt *types.Slice, elems []ast.Expr) Value {
@@ -914,7 +932,7 @@ func (x *Exec) modularCall(e *Env, callee *types.Func, c *Contract, args []Value
 		if i < len(c.Results) {
 			nm = c.Results[i]
 		}
-		v := x.havoc(e, rs.At(i).Type(), short+"."+nm)
+		v := x.havocNamed(e, rs.At(i).Type(), short+"."+nm, hasName(c.BVNames, nm))
 		results = append(results, v)
 		ce.names[nm] = v
 	}
@@ -923,6 +941,24 @@ func (x *Exec) modularCall(e *Env, callee *types.Func, c *Contract, args []Value
 		ce.where = en.Line
 		t := ce.boolTerm(ce.expr(en.Expr))
 		e.st.assume(t)
+		// functional postcondition `r == term` / `len(r) == term`: use the term itself in the result
+		if t.Op == "=" {
+			var v, def *Term
+			if t.Args[0].Op == "var" && !mentionsVar(t.Args[1], t.Args[0].Name) {
+				v, def = t.Args[0], t.Args[1]
+			} else if t.Args[1].Op == "var" && !mentionsVar(t.Args[0], t.Args[1].Name) {
+				v, def = t.Args[1], t.Args[0]
+			}
+			if v != nil && strings.HasPrefix(v.Name, short+".") && v.S == def.S {
+				m := map[string]*Term{v.Name: def}
+				for i := range results {
+					results[i] = substValue(results[i], m)
+					if i < len(c.Results) {
+						ce.names[c.Results[i]] = results[i]
+					}
+				}
+			}
+		}
 	}
 	switch len(results) {
 	case 0:
@@ -1162,4 +1198,28 @@ func (x *Exec) inlineCall(e *Env, callee *types.Func, c *Contract, args []Value,
 		return results[0]
 	}
 	return TupleV(results)
+}
+
+func termMentionsApp(t *Term, name string) bool {
+	if t.Op == "app" && t.Name == name {
+		return true
+	}
+	for _, a := range t.Args {
+		if termMentionsApp(a, name) {
+			return true
+		}
+	}
+	return false
+}
+
+func mentionsVar(t *Term, name string) bool {
+	if t.Op == "var" && t.Name == name {
+		return true
+	}
+	for _, a := range t.Args {
+		if mentionsVar(a, name) {
+			return true
+		}
+	}
+	return false
 }
